@@ -262,6 +262,11 @@ def run(ctx):
     ctx.floor('R14.3', 'writing paths of x224::Client::write', n, 1)
 
 
+    # ---- R14.5 the length the frame header announces is the number of bytes write() emits: Message::length / write agreement of the containers
+    #      (rule R18.1 of C18, same facts) --------------------------------------------------------------------------------------------------------
+    import c18
+    ctx.include(c18.run, ('R18.1',), 'R14.5')
+
 def root_local(e, through_calls=False, st=None):
     """the local variable an address expression ultimately refers to (refl chain), else None"""
     seen = 0
